@@ -4,6 +4,7 @@
 package crash
 
 import (
+	"testing/fstest"
 	"bytes"
 	"errors"
 	"fmt"
@@ -339,7 +340,15 @@ func runBody(in *Input, out *Outcome) {
 		for _, t := range root.Types() {
 			_ = t.SDL(true)
 			_ = t.String()
+			walkType(t)
 		}
+		// the other loaders take the same text: bytes, and a file system holding it cut in two files
+		_ = ggql.NewRoot(nil).Parse([]byte(in.Text))
+		half := len(in.Text) / 2
+		fsys := fstest.MapFS{"a.graphql": {Data: []byte(in.Text[:half])}, "b.graphql": {Data: []byte(in.Text[half:])}, "c.txt": {Data: []byte("type")}}
+		_ = ggql.NewRoot(nil).ParseFS(fsys, "*.graphql")
+		_ = ggql.NewRoot(nil).ParseFS(fsys, "[")
+		_ = ggql.NewRoot(nil).ParseFS(fsys)
 		res := root.ResolveString(introspect, "", nil)
 		var b bytes.Buffer
 		_ = ggql.WriteJSONValue(&b, res, 2)
@@ -360,6 +369,9 @@ func runBody(in *Input, out *Outcome) {
 			} else {
 				mark("exe-parsed")
 				_ = exe.String()
+				walkExe(exe)
+				_ = exe.Validate(root)
+				exe.SetContextRecursive(42)
 				_, rerr := root.ResolveExecutable(exe, in.Op, in.Vars)
 				if rerr == nil {
 					mark("exe-resolved-clean")
@@ -372,6 +384,20 @@ func runBody(in *Input, out *Outcome) {
 			var b bytes.Buffer
 			_ = ggql.WriteJSONValue(&b, res, -1)
 			_ = ggql.WriteJSONValue(&b, res, 2)
+			if name == "resolver" {
+				// the other entry points taking the same text
+				_ = root.ResolveBytes([]byte(in.Text), in.Op, in.Vars)
+				_ = root.ResolveString(in.Text, in.Op, in.Vars)
+				if e2, err := root.ParseExecutable([]byte(in.Text)); err == nil && e2 != nil {
+					_ = e2.String()
+				}
+				if e3, err := root.ParseExecutableString(in.Text); err == nil && e3 != nil {
+					// resolving twice: the second time works on an AST that has been resolved before
+					_, _ = root.ResolveExecutable(e3, in.Op, in.Vars)
+					_, _ = root.ResolveExecutable(e3, in.Op, in.Vars)
+					_ = e3.String()
+				}
+			}
 		}
 	case "value":
 		v, err := ggql.ParseValue(reader(in))
@@ -393,6 +419,97 @@ func runBody(in *Input, out *Outcome) {
 			_ = ggql.WriteJSONValue(failWriter{}, map[string]interface{}(in.Vars), indent)
 		}
 		mark("writer-ran")
+	}
+}
+
+// walkType calls the printing methods of everything hanging off a type: fields, arguments, the
+// type expressions (List / NonNull wrappers are types of their own) and directive uses.
+func walkType(t ggql.Type) {
+	expr := func(x ggql.Type) {
+		for i := 0; x != nil && i < 50; i++ {
+			_ = x.String()
+			_ = x.SDL(true)
+			_ = x.Name()
+			_ = x.Description()
+			_ = x.Rank()
+			_ = x.Core()
+			_ = x.Directives()
+			switch w := x.(type) {
+			case *ggql.List:
+				x = w.Base
+			case *ggql.NonNull:
+				x = w.Base
+			default:
+				x = nil
+			}
+		}
+	}
+	args := func(as []*ggql.Arg) {
+		for _, a := range as {
+			_ = a.Name()
+			_ = a.Description()
+			expr(a.Type)
+			for _, du := range a.Dirs {
+				var b bytes.Buffer
+				_ = du.Write(&b)
+			}
+		}
+	}
+	switch tt := t.(type) {
+	case *ggql.Object:
+		for _, f := range tt.Fields() {
+			expr(f.Type)
+			args(f.Args())
+		}
+	case *ggql.Interface:
+		for _, f := range tt.Fields() {
+			expr(f.Type)
+			args(f.Args())
+		}
+	case *ggql.Input:
+		for _, f := range tt.Fields() {
+			expr(f.Type)
+			_ = f.Description()
+		}
+	case *ggql.Enum:
+		for _, v := range tt.Values() {
+			_ = v.Value
+			for _, du := range v.Directives {
+				var b bytes.Buffer
+				_ = du.Write(&b)
+			}
+		}
+	case *ggql.Union:
+		for _, m := range tt.Members {
+			expr(m)
+		}
+	}
+}
+
+// walkExe calls String() on every node of a parsed request.
+func walkExe(exe *ggql.Executable) {
+	var sels func(ss []ggql.Selection, depth int)
+	sels = func(ss []ggql.Selection, depth int) {
+		if depth > 60 {
+			return
+		}
+		for _, s := range ss {
+			if depth < 3 {
+				_ = s.String() // (printing every subtree of a deep document is quadratic)
+			}
+			_ = s.Directives()
+			_ = s.Line()
+			_ = s.Column()
+			sels(s.SelectionSet(), depth+1)
+		}
+	}
+	for _, op := range exe.Ops {
+		_ = op.String()
+		sels(op.SelectionSet(), 0)
+	}
+	for _, f := range exe.Fragments {
+		_ = f.String()
+		sels(f.SelectionSet(), 0)
 	}
 }
 
